@@ -57,7 +57,7 @@ def readTrailerReq (cfg : Cfg) (e : End) (names : List Bytes) (s : Bytes) :
   if s.isEmpty then
     match e with
     | .eof => .ok (none, s)        -- io.EOF: `ReadTrailer` resets the trailer; the caller tolerates EOF
-    | .stall => .error .bad
+    | .stall => .error .hzTimeout
   else
     match parseTrailer cfg.disableNorm tr0 s with
     | .ok (tr, n) => .ok (some (filledTrailers tr), s.drop n)
@@ -65,7 +65,7 @@ def readTrailerReq (cfg : Cfg) (e : End) (names : List Bytes) (s : Bytes) :
     | .error .needMore =>
       match e with
       | .eof => .ok (none, s)    -- trailer reset, io.EOF tolerated, nothing discarded from the reader
-      | .stall => .error .bad
+      | .stall => .error .hzTimeout
 
 /-- `req.ContinueReadBody` -/
 def continueReadBody (cfg : Cfg) (e : End) (hd : ReqHead) (s : Bytes) : BodyRes :=
@@ -95,6 +95,7 @@ def errStatus : RdErr → Option Nat
   | .timeout => some 408
   | .tooLarge => some 413
   | .unexpectedEOF => some 400
+  | .hzTimeout => some 400     -- not a net.Error: classified as a parse error
   | .bad => some 400
 
 /-- One connection. `fuel` bounds the number of requests (`s.length + 1` suffices). -/
